@@ -32,6 +32,12 @@ func (node *Node) processUnconfirmedTx(ctx context.Context, tx handlers.TxData) 
 		return errors.New("Process unconfirmed tx with height")
 	}
 
+	// Don't interleave with block processing. A block that contains this tx would otherwise find
+	// it in the mempool, but not yet in the tx repo, and skip it as already seen and not relevant,
+	// so it would never be reported as confirmed.
+	node.blockLock.Lock()
+	defer node.blockLock.Unlock()
+
 	node.txTracker.Remove(ctx, *hash)
 
 	// The mempool is needed to track which transactions have been sent to listeners and to check
